@@ -82,7 +82,8 @@ def make_case(unit):
         add_display_transforms(g, spec, transforms, kinds=["none", "explicit", "label"])
         if g.chance(0.6):
             transforms.setdefault("rows_dimension", {})["prune"] = True
-    return {"template": template, "spec": sim.spec_to_dict(spec), "transforms": transforms}
+    return {"template": template, "spec": sim.spec_to_dict(spec), "transforms": transforms,
+            "mask_size": cases.mask_size_for(ID, i)}
 
 
 def _uneven_missing(g, rrole, rv, crole, cv):
